@@ -22,7 +22,7 @@ from tables import ExtractError, find_def, fp, lean_str, parse, table
 
 fp("dask/blockwise.py", "_get_coord_mapping", "_make_blockwise_graph", "_lol_product", "Blockwise._cull_dependencies",
    "Blockwise.cull", "Blockwise.get_output_keys", "broadcast_dimensions", "_make_dims", "rewrite_blockwise",
-   "_optimize_blockwise", "_fuse_annotations", "_can_fuse_annotations", "blockwise")
+   "_optimize_blockwise", "optimize_blockwise", "fuse_roots", "_fuse_annotations", "_can_fuse_annotations", "blockwise")
 fp("dask/highlevelgraph.py", "HighLevelGraph.cull", "Layer.cull")
 fp("dask/_task_spec.py", "cull")
 
